@@ -168,6 +168,8 @@ pub struct Alph {
     pub set_pingresp_to: Vec<u64>,
     /// index of the first topic of `TOPICS` this configuration uses (`topics` many from there)
     pub topic_base: usize,
+    /// the client may pipeline PUBLISH packets behind its CONNECT (they arrive while the server owes the CONNACK)
+    pub early_peer_traffic: bool,
     /// identifiers the application reserves itself (register_packet_id) for a publish instead of acquiring
     /// the lowest free one: exchanges with large identifier values (256, type maximum)
     pub pub_ids: Vec<u32>,
@@ -958,6 +960,18 @@ impl<P: Pid> World for Ep<P> {
                 for k in Tk::ALL {
                     if m.armed[k.idx()] {
                         v.push(Act::Timer(k));
+                    }
+                }
+            }
+            // a client may pipeline packets behind its CONNECT: they reach the server before it answered
+            if al.early_peer_traffic && m.link_up && version_known {
+                for &q in &al.peer_pub_q {
+                    let ids: Vec<u32> = if q == 0 { vec![0] } else { al.peer_ids.clone() };
+                    for id in ids {
+                        v.push(Act::PPub { q, id, dup: false, t: al.topic_base as u8, al: Al::No, rep: 0 });
+                        if al.peer_dup && q > 0 {
+                            v.push(Act::PPub { q, id, dup: true, t: al.topic_base as u8, al: Al::No, rep: 0 });
+                        }
                     }
                 }
             }
